@@ -1,3 +1,7 @@
 import Biogo.Properties.C01
 open Biogo.Properties.C01
 #print axioms source_constants
+#print axioms alphabet_letters_ok
+#print axioms fasta_roundtrip
+#print axioms fasta_write_count
+#print axioms fasta_renders_read
